@@ -15,7 +15,9 @@ Scope predicates (all decidable):
                   unchanged tree violates the property there (recorded findings, replayed by the check):
                   F17 int-valued Enum mapping keys, F18 bool mapping keys, F41 int/bool Literal mapping keys (json,
                   msgspec); F19 msgspec `deque[T]` with pass-through elements; F20 msgspec mappings keyed by a plain
-                  str-valued Enum whose values need a hook; F42 `Counter[K]` keys are never unstructured;
+                  str-valued Enum whose values need a hook (a `Counter`'s counts always do: their handler is that of
+                  `Any`).  `Counter[K]` is supported for every key type `K` a mapping supports (F42 — the keys of a
+                  Counter were never unstructured — is repaired in /repo; the model is the repaired code);
 * `confP w T x`   x is a value of T at every depth (sets and dict keys duplicate-free);
 * `withinLimits`  ints within msgspec's documented 64-bit range (floats are finite and datetimes naive by
                   construction of the object universe; the model's codec does not depend on the magnitude of ints,
@@ -27,7 +29,8 @@ enums of the three kinds, literals, native unions), Optional, every homogeneous 
 pass-through decisions identity / to_builtins), sets and frozensets whether they are unstructured to a list (json,
 pyyaml frozensets) or to a `set`/`frozenset` (pyyaml sets, msgspec: by the injectivity of the element encoding up to
 Python `==`, `unP_inj`), heterogeneous tuples, mappings of every kind (generated mapping hook, msgspec pass-through
-to `to_builtins`; keys as sent / as decoded: `key_unP`, `key_toB`) and `Counter` (`key_counter`), attrs classes and
+to `to_builtins`; keys as sent / as decoded: `key_unP`, `key_toB`; `Counter[K]` is a mapping that is never passed
+through), attrs classes and
 dataclasses through the generated dict hooks or (msgspec) handed wholesale to `to_builtins` (`rtb`), TypedDicts by
 entrywise hooks (json, pyyaml) or (msgspec) as bare mappings unstructured by run-time class (`rtr`).
 Proof: `Preconf/Lemmas.lean` … `Lemmas7.lean` (`rt_all`: mutual structural recursion on the type).
@@ -162,6 +165,16 @@ example : roundTrip exW c16Env ⟨.msgspec, Option.none⟩ exT2 exX2 = some exX2
 example : roundTrip exW c16Env ⟨.yaml, some 3⟩ exT2 exX2 = some exX2 :=
   C16_loads_dumps _ _ _ _ _ (by decide) c16Env_ok (by decide) (by decide) (by decide)
 example : rtSafe exW exT2 = true := by decide
+/-- `Counter[K]` for key types whose values need unstructuring: bytes, datetime, a plain Enum, a hooked float -/
+example : sup exW ⟨.json, Option.none⟩ (.map .counter .bytes .int) = true
+    ∧ sup exW ⟨.json, Option.none⟩ (.map .counter .datetime .int) = true
+    ∧ sup exW ⟨.yaml, Option.none⟩ (.map .counter (.enum 1) .int) = true
+    ∧ sup exW ⟨.json, Option.none⟩ (.map .counter (.enum 1) .int) = true
+    ∧ sup exW ⟨.msgspec, some 7⟩ (.map .counter .float .int) = true
+    ∧ confP exW (.map .counter (.enum 1) .int) (.dict [(.enumM 1 0, .int 3)]) = true := by decide
+example : roundTrip exW c16Env ⟨.yaml, Option.none⟩ (.map .counter (.enum 1) .int) (.dict [(.enumM 1 0, .int 3)])
+    = some (.dict [(.enumM 1 0, .int 3)]) :=
+  C16_loads_dumps _ _ _ _ _ (by decide) c16Env_ok (by decide) (by decide) (by decide)
 /-- the user-hook theorem applies to the class of `exT` (a dataclass with a hooked `float` field) on msgspec -/
 example : sup exW ⟨.msgspec, some 2000⟩ (.cls 0 true [("a", .float), ("t", .tupleHet [.datetime, .enum 0])]) = true
     ∧ confP exW (.cls 0 true [("a", .float), ("t", .tupleHet [.datetime, .enum 0])])
@@ -204,11 +217,16 @@ theorem C16_F41_int_literal_key_witness (env : Env) :
   simp [roundTrip, unP, enc, encKV, encKey, norm, normKV, normKey, mkDict, dictSet, stP, mapOpt, Obj.memPy, Obj.pyEq,
     Obj.num2?, toIntE]
 
-/-- F42 (every converter; here json): `Counter[bytes]` keys are not unstructured, and json cannot encode bytes keys. -/
-theorem C16_F42_counter_key_witness (env : Env) :
-    roundTrip { enums := [] } env ⟨.json, Option.none⟩ (.map .counter .bytes .int) (.dict [(.bytes "61", .int 1)])
-      = Option.none := by
-  simp [roundTrip, unP, enc, encKV, encKey, mkDict, dictSet]
+/-- F42 (repaired in /repo): had the keys of a `Counter[bytes]` been left as they are (the pre-fix key type was the
+tuple `(K,)`, whose handler is the identity), the unstructured form `{b"a": 1}` would not be encodable by json; with
+the repaired handler the round trip holds (next example: an instance of `C16_loads_dumps`). -/
+theorem C16_F42_counter_key_witness :
+    enc { enums := [] } .json (.dict (mkDict [(.bytes "61", .int 1)])) = false := by
+  simp [enc, encKV, encKey, mkDict, dictSet]
+
+example : roundTrip { enums := [] } c16Env ⟨.json, Option.none⟩ (.map .counter .bytes .int) (.dict [(.bytes "61", .int 1)])
+    = some (.dict [(.bytes "61", .int 1)]) :=
+  C16_loads_dumps _ _ _ _ _ (by decide) c16Env_ok (by decide) (by decide) (by decide)
 
 /-- F8 (repaired in /repo by 14bc408): had the msgspec converter handed a dataclass with a hooked `float` field to
 `to_builtins` (the pre-fix decision), the unstructure hook would be skipped and the structure hook applied:
